@@ -23,7 +23,7 @@ _UNIT_SUITES = [
     ('U-lower.', ['lower']), ('U-pypi.', ['lower']),
     ('U-vtype.', ['preds']), ('U-shape.', ['preds', 'shapes']), ('U-qkey.', ['preds']),
     ('U-ptfin.', ['pkgrules']), ('U-ptname.', ['names']),
-    ('U-build.', ['builder', 'protocol']), ('U-set.', ['builder']),
+    ('U-build.', ['builder', 'protocol']), ('U-proto.', ['protocol']), ('U-set.', ['builder']),
     ('U-qmap.', ['qualmap']), ('U-qcmp.', ['qualmap']),
     ('U-comb.', ['comb']), ('U-acc.', ['format:C03']),
     ('U-sub.', ['segments']), ('U-ns.', ['segments']),
@@ -82,8 +82,9 @@ PROPS = {
                     '(Ok iff valid type; on Ok the type is ASCII-lower-cased; parts untouched), package_type() is the identity view; everything else is one generic body. '
                     'Bounded cross-checks on the compiled code accompany the proof.',
         trusted=['SmartString<M> implements the String operations used (deref to str, make_ascii_lowercase) with String semantics: its impl is verified over SmallString = String']),
-    'C14': dict(level='other', groups=['builder', 'parse'], kani=[], bounded=['protocol'],
-        explanation='Proved (Verus) for every T: FromStr + PurlShape: parse_post -- the conversion relation is consulted once, with exactly the syntactically valid type substring as written, never after an earlier defect; a conversion error is returned through From unchanged; then build_post: the generic checks applied to exactly ONE application of the hook relation; a hook error is returned unchanged; emptied name refused, empty qualifiers removed, checksum canonicalised or refused. Assumed inside build(): retain / try_get_typed wrappers. BOUNDED: 2 x 9 counting shapes x T_N on the compiled code.'),
+    'C14': dict(level='proof', groups=['builder', 'parse', 'c14', 'purl', 'fmt'], kani=[], bounded=['protocol'],
+        trusted=['R11: the ghost call-log parameter added to from_str, build(), T::from_str and finish in group c14 is erased at compile time (ghost code cannot influence executable results: Verus mode checking); the user-code stubs append one entry per call'],
+        explanation='HISTORY AS GHOST STATE (group c14): from_str and build() are re-extracted with a ghost call log threaded through every call of T::from_str, finish and build() found in their bodies; the stubs of the two user traits append one entry per call. Proved for every T: FromStr + PurlShape and every string: build() appends exactly one Hook entry whatever its outcome; one parse appends nothing while the string is defective before the type (phase_a), else exactly one Conv entry carrying the type substring as written (valid_type: lemma_conv_arg_valid), followed by exactly one Hook entry only if the conversion returned Ok and the rest is well-formed (proto_ok). A second call, a call on another text, a call before validation or a hook call before the conversion fails this postcondition. The value side: Proved (Verus) for every T: FromStr + PurlShape: parse_post -- the conversion relation is consulted once, with exactly the syntactically valid type substring as written, never after an earlier defect; a conversion error is returned through From unchanged; then build_post: the generic checks applied to exactly ONE application of the hook relation; a hook error is returned unchanged; emptied name refused, empty qualifiers removed, checksum canonicalised or refused. Assumed inside build(): retain / try_get_typed wrappers. BOUNDED: 2 x 9 counting shapes x T_N on the compiled code.'),
     'C15': dict(level='other', groups=['pkgtype'], kani=['package_type_names'], bounded=['names'],
         explanation='Complete on finite domains: the 7-variant name table (Kani + Verus: name() == type_name), all 192 case variants (enumerated). The converse over all strings rests on phf / UniCase '
                     '(dependency); BOUNDED: strings <= 4 / 5 over the names\' letters plus look-alikes, one-edit neighbours, the spec\'s other type names.'),
@@ -103,7 +104,7 @@ PROPS = {
                     'BOUNDED: values that are not normalised (builder-made namespaces with empty segments etc.) and the end-to-end statement on the compiled code: all pairs of a near-collision corpus, parsed and built, String and PackageType.'),
 }
 
-ALL_GROUPS = ['lib_lower', 'lib_shape', 'pkgtype', 'qual', 'builder', 'purl', 'parse_seg', 'cksum', 'fmt', 'parse', 'inverse', 'serde', 'c01', 'ckfix']
+ALL_GROUPS = ['lib_lower', 'lib_shape', 'pkgtype', 'qual', 'builder', 'purl', 'parse_seg', 'cksum', 'fmt', 'parse', 'inverse', 'serde', 'c01', 'ckfix', 'c14']
 
 
 def _auto_groups():
@@ -142,6 +143,7 @@ _EXTRA_TRUSTED = {
             'the iterator given to try_from_iter is finite and obeys vstd\'s prophetic iterator laws'],
     'C12': ['hex::FromHex / ToHex: decode(encode(b)) == b, encode yields lower-case hex (dependency; exercised by the checksum suite)',
             'HashMap wrappers of Checksum (with_capacity / insert / get / get_mut / remove / into_iter().collect() in ARBITRARY order)', _LOWER],
+    'C14': [_RETAIN, _HOOK, 'try_get_typed::<Checksum>() / the checksum conversions as used by build() (verified in groups qual / cksum, imported by contract)'],
     'C16': [_ENC, _CONV, _PHF, _LOWER, _DERIVE, _RETAIN],
     'C19': [_ENC, _DERIVE],
 }
